@@ -6,7 +6,7 @@
 set -u
 export GOFLAGS=-mod=mod GOPROXY=off GOSUMDB=off GOTOOLCHAIN=local
 ID=$1; K=$2
-SRC=/tmp/seedout/$ID
+SRC=${SEEDOUT:-/tmp/seedout}/$ID
 WT=/tmp/vseed-$ID-$K
 [ -f $SRC/patch$K.diff ] || { echo "$ID-$K: no patch"; exit 3; }
 git -C /repo worktree add --detach $WT >/dev/null 2>&1 || { echo "worktree failed"; exit 3; }
